@@ -23,7 +23,7 @@
    melt quotes, esett = 1 iff the backend reports the quote's invoice settled, cnt id cred = internal settlements credited to it.
 *)
 From Coq Require Import ZArith List Bool.
-From Verif Require Import Model Sem InvDb InvSwap InvMint InvMelt Corollaries Queries Footprint HRel Global GlobalQuote GlobalValue GlobalErr GlobalQuery GlobalMelt GlobalKeys Cuts CutOrder Conc Races GlobalBalance GlobalLedger Reconf GlobalPoll Trace Admin AdminProofs.
+From Verif Require Import Model Sem InvDb InvSwap InvMint InvMelt Corollaries Queries Footprint HRel Global GlobalQuote GlobalValue GlobalErr GlobalQuery GlobalMelt GlobalKeys Cuts CutOrder Conc Races GlobalBalance GlobalLedger Reconf GlobalPoll Trace Admin AdminProofs CutValue CutMint CutFrames ConcValue CutHistory CutBalance.
 Import ListNotations.
 Open Scope Z_scope.
 
@@ -87,6 +87,38 @@ Theorem C02_no_inflation_ledger_reconf : forall (segs : list (config * list op))
         vS w' + ext_out w' (map fst ip') <= vR w' + per_quote (esett w') (d_mq (w_db w')).
 Proof. exact @no_inflation_ledger_reconf. Qed.
 Print Assumptions C02_no_inflation_ledger_reconf.
+
+Theorem C02_no_inflation_with_cuts : forall (cfg : config) (h : list hitem),
+       cfg_ok cfg ->
+       Forall cut_item h ->
+       hhonest cfg world0 h ->
+       Forall item_u64 h ->
+       let w := hrun cfg world0 h in
+       let
+       '(_, _, cred) := htrace cfg world0 h [] [] in
+        vS w + vOut w <= vR w + per_quote (fun m : mquote => esett w m + cnt (mq_id m) cred) (d_mq (w_db w)) /\
+        (forall q : lquote,
+         In q (d_lq (w_db w)) -> lq_state q = 1 -> lq_amount q + lq_fee q <= rows_sum (lq_id q) (w_db w)) /\
+        (forall q : lquote, In q (d_lq (w_db w)) -> lq_state q <> 1 -> rows_of_quote (lq_id q) (w_db w) = []).
+Proof. exact @no_inflation_with_cuts. Qed.
+Print Assumptions C02_no_inflation_with_cuts.
+
+Theorem C02_swap_cut_no_value_created : forall (mem_ks : list ksrow) (active : Z) (ins : list proof) (outs : list bmsg) 
+         (sg : bool) (n : nat) (f : oracle) (w : world),
+       Forall (fun x : Z => 0 <= x < two64) (map b_amount outs) ->
+       let w' := fst (run_n n (swap mem_ks active ins outs sg) f w) in vS w' - vS w <= vR w' - vR w.
+Proof. exact @swap_cut_no_value_created. Qed.
+Print Assumptions C02_swap_cut_no_value_created.
+
+Theorem C02_concurrent_swaps_never_inflate : forall (cfg : config) (w : world) (ops : list op) (sched : list nat),
+       Forall calm ops ->
+       let w0 := reset_calls w in
+       let ts := map (op_prog cfg (w_mem w0) (w_active w0)) ops in
+       (forall k : nat,
+        vS (fst (interleave (firstn k sched) ts w0)) - vR (fst (interleave (firstn k sched) ts w0)) <= vS w - vR w) /\
+       vS (fst (run_concurrent cfg w ops sched)) - vR (fst (run_concurrent cfg w ops sched)) <= vS w - vR w.
+Proof. exact @concurrent_swaps_never_inflate. Qed.
+Print Assumptions C02_concurrent_swaps_never_inflate.
 
 Theorem C02_swap_cut_signatures_imply_spent : forall (mem_ks : list ksrow) (active : Z) (ins : list proof) (outs : list bmsg) 
          (sg : bool) (n : nat) (f : oracle) (w : world),
